@@ -1,5 +1,5 @@
 """Shared rule building blocks (effect tables, heed call-site inventory, helpers)."""
-from facts import strip, show, walk, is_call
+from facts import const_eval, strip, show, walk, is_call
 
 # --------------------------------------------------------------------------- heed ops
 # op name -> (is_write, index of the key/prefix/range argument or None)
@@ -497,3 +497,48 @@ def key_kind_at(f, c, k):
     if any(owner == n and var == 'Item' and not holds for owner, var, holds in facts):
         return 'not-item'
     return 'new'
+
+
+def every_u16(f, t):
+    """`t` ranges over every u16 exactly once: the variable of `for i in 0..=u16::MAX`, or a counter started at 0 and
+    advanced by `checked_add(1)` whose overflow (None) leaves the loop"""
+    import paths
+    t0 = strip(t)
+    for s in walk(t0):
+        if s[0] == 'call' and s[1].endswith('RangeInclusive::<Idx>::new') and len(s[2]) == 2:
+            if const_eval(s[2][0]) == 0 and const_eval(s[2][1]) == 65535:
+                return True
+    if t0[0] == 'phi':
+        l = t0[1]
+        if f.local_ty(l) != 'u16':
+            return False
+        zero = False
+        step = None
+        other = False
+        for alt in t0[2]:
+            a = strip(alt)
+            if const_eval(a) == 0:
+                zero = True
+            elif a[0] == 'field' and a[2] == '0' and strip(a[1])[0] == 'downcast' and strip(a[1])[2] == 'Some':
+                c = strip(strip(a[1])[1])
+                if c[0] == 'call' and c[1].endswith('<impl u16>::checked_add') and len(c[2]) == 2 and const_eval(c[2][1]) == 1 \
+                        and strip(c[2][0])[0] in ('phi', 'var') and strip(c[2][0])[1] == l:
+                    step = c
+                else:
+                    other = True
+            else:
+                other = True
+        if zero and step is not None and not other:
+            cc = f.call_at(step[3])
+            # the None edge of the overflow test leaves the loop: it cannot come back to the increment
+            for b in f.live_blocks():
+                sw = paths.switch_at(f, b)
+                if sw is None:
+                    continue
+                d = f.term(sw['discr'])
+                if d[0] == 'discr' and strip(d[1])[0] == 'call' and strip(d[1])[3] == cc.bb:
+                    for x in f.succ(b):
+                        e = paths.edge_cond(f, b, x)
+                        if e and e[0] == 'disc' and 0 in e[2] and not e[3]:
+                            return cc.bb not in f.reachable(x)
+    return False
